@@ -51,3 +51,28 @@ package triple
 //@   pure
 //@   requires wfTriple(t)
 //@   ensures result == tu(t) && len(result) == 16
+
+//@ props C15 C09
+//@ func (o *Object) Predicate
+//@   requires o != nil
+//@   ensures[value-or-error] (result1 == nil) <==> o.p != nil
+//@   ensures[value] result0 == o.p
+
+//@ func (o *Object) Node
+//@   requires o != nil
+//@   ensures[value-or-error] (result1 == nil) <==> o.n != nil
+//@   ensures[value] result0 == o.n
+
+//@ func (o *Object) Literal
+//@   requires o != nil
+//@   ensures[value-or-error] (result1 == nil) <==> o.l != nil
+//@   ensures[value] result0 == o.l
+
+// tstr(t): the printed form of a triple (Triple.String); its relation to Parse is the subject of C05.
+//@ spec func tstr(t *Triple) String
+//@ props C05
+//@ func (t *Triple) String
+//@   trusted printed form; round trip with Parse is the subject of C05
+//@   pure
+//@   requires t != nil
+//@   ensures result == tstr(t)
